@@ -77,6 +77,10 @@ class Gen:
                 line += " wthrow=" + wth
             if fth:
                 line += " fthrow=" + fth
+            # a sink the application built with make_shared and hands to the logger directly (never in the SinkManager
+            # registry); drawn from the side generator so that the rest of the script is unchanged
+            if ri.random() < 0.25:
+                line += " unreg=1"
             self.emit(line)
         ng = r.choice([1, 2, 2, 3])
         for g in range(ng):
@@ -297,6 +301,11 @@ def directed_scripts(variant):
     out.append(("dir_flush_after_partial_write", [
         "cfg grace=0 soft=4 hard=8 tcap=2 flushint=1000000", "sink 0 lvl=0", "sink 1 lvl=0 wthrow=1", "logger 0 sinks=0,1 lvl=0", "start",
         "T 1 start", "L 1 0 4 10", "F 1 0", "P", "P", "R 1", "L 1 0 4 10", "F 1 0", "P", "P", "R 1", "Q", "X"]))
+    # a sink that is not in the SinkManager registry (make_shared, passed to create_or_get_logger): flush_log must flush it
+    out.append(("dir_flush_unregistered_sink", [
+        "cfg grace=0 soft=4 hard=8 tcap=2 flushint=1000000", "sink 0 lvl=0 unreg=1", "sink 1 lvl=0", "logger 0 sinks=0,1 lvl=0",
+        "logger 1 sinks=1 lvl=0", "start", "T 1 start", "L 1 0 4 10", "F 1 0", "P", "P", "R 1", "L 1 0 4 10", "F 1 1", "P", "P", "R 1",
+        "RL 1 0", "P", "P", "Q", "DS 0", "X"]))
     # flush_log of thread 2 behind a backlog of thread 1 that is longer than the hard limit (batch mode: soft = 1)
     out.append(("dir_flush_behind_truncated_backlog", [
         "cfg grace=1 soft=1 hard=2 tcap=2", "sink 0 lvl=0", "logger 0 sinks=0 lvl=0", "start",
